@@ -334,23 +334,52 @@ theorem newSortCols_cover (seen : List String) (s : List SortField) (sf : SortFi
             · right; simp only [List.mem_singleton] at h''; simp [h'']
           · right; simp only [List.map_cons, List.mem_cons]; exact Or.inr h'
 
+/-- the sort list that counts for the plan: Stats results are not sorted, so for a Stats request a `Sort:`
+    header adds nothing to what the backends are asked for -/
+def effSort (req : Request) : List SortField := if req.stats.isEmpty then req.sort else []
+
+theorem effSort_of_stats_nil (req : Request) (h : req.stats = []) : effSort req = req.sort := by
+  simp [effSort, h]
+
+theorem effSort_of_stats_ne_nil (req : Request) (h : req.stats ≠ []) : effSort req = [] := by
+  have : req.stats.isEmpty = false := by simpa using h
+  simp [effSort, this]
+
+theorem effSort_of_sort_nil (req : Request) (h : req.sort = []) : effSort req = [] := by
+  simp [effSort, h]
+
+theorem ptPlan_eq (t : Table) (req : Request) :
+    ptPlan t req = planSort (effSort req) (planColumns (requestColumns t req) 0 {}) := rfl
+
 /-- the whole row lmd builds for a request: the requested columns, then the new sort columns -/
 def allCols (t : Table) (req : Request) : List Column :=
-  requestColumns t req ++ newSortCols ((requestColumns t req).map (·.name)) req.sort
+  requestColumns t req ++ newSortCols ((requestColumns t req).map (·.name)) (effSort req)
 
 theorem ptPlan_planOf (t : Table) (req : Request) : PlanOf (ptPlan t req) (allCols t req) :=
-  (planSort_spec req.sort _ _ (planOf_planColumns _)).1
+  (planSort_spec (effSort req) _ _ (planOf_planColumns _)).1
 
 theorem ptPlan_sortIdx (t : Table) (req : Request) :
-    AllPoint (allCols t req) (req.sort.filter (·.col.isSome)) (ptPlan t req).sortIdx := by
-  obtain ⟨idxs, h1, h2⟩ := (planSort_spec req.sort _ _ (planOf_planColumns (requestColumns t req))).2
+    AllPoint (allCols t req) ((effSort req).filter (·.col.isSome)) (ptPlan t req).sortIdx := by
+  obtain ⟨idxs, h1, h2⟩ := (planSort_spec (effSort req) _ _ (planOf_planColumns (requestColumns t req))).2
   have : (ptPlan t req).sortIdx = idxs := by
-    unfold ptPlan; rw [h1, planColumns_eq]; simp
+    rw [ptPlan_eq, h1, planColumns_eq]; simp
   rw [this]; exact h2
 
-theorem allCols_of_sort_nil (t : Table) (req : Request) (h : req.sort = []) :
+theorem allCols_of_effSort_nil (t : Table) (req : Request) (h : effSort req = []) :
     allCols t req = requestColumns t req := by
   simp [allCols, h, newSortCols]
+
+theorem allCols_of_sort_nil (t : Table) (req : Request) (h : req.sort = []) :
+    allCols t req = requestColumns t req :=
+  allCols_of_effSort_nil t req (effSort_of_sort_nil req h)
+
+/-- a Stats request: the plan is the plan of the same request without its `Sort:` headers -/
+theorem ptPlan_stats_sort (t : Table) (req : Request) (h : req.stats ≠ []) :
+    ptPlan t req = ptPlan t { req with sort := [] } := by
+  have h1 : effSort req = [] := effSort_of_stats_ne_nil req h
+  have h2 : effSort { req with sort := [] } = [] := effSort_of_sort_nil _ rfl
+  rw [ptPlan_eq, ptPlan_eq, h1, h2]
+  rfl
 
 /-! ## 2. the splice -/
 
@@ -1030,6 +1059,15 @@ theorem ptStats_eq (t : Table) (req : Request) (peers : List PTPeer) :
           then [([], (req.stats.map StatsEntry.accKind).map Acc.init)] else (statsFold t req peers).1,
         failed := ptFailed peers, skipped := (statsFold t req peers).2 } := by
   rfl
+
+/-- the spliced rows and the Stats fold of a Stats request do not depend on its `Sort:` headers -/
+theorem spliced_stats_sort (t : Table) (req : Request) (peers : List PTPeer) (h : req.stats ≠ []) :
+    spliced t req peers = spliced t { req with sort := [] } peers := by
+  unfold spliced; rw [ptPlan_stats_sort t req h]
+
+theorem statsFold_stats_sort (t : Table) (req : Request) (peers : List PTPeer) (h : req.stats ≠ []) :
+    statsFold t req peers = statsFold t { req with sort := [] } peers := by
+  unfold statsFold; rw [spliced_stats_sort t req peers h]; rfl
 
 def glookup (g : Groups) (k : List String) : Option (List Acc) := (g.find? (·.1 == k)).map (·.2)
 
